@@ -122,6 +122,23 @@ class Transport(object):
         return bool(self.connected and not self.disconnecting)
 
 
+class _PendingSocket(object):
+    """what connector.transport.getHandle() gives while the attempt is pending (used for TCP_MD5SIG)"""
+    def __init__(self, world, cid):
+        self.world, self.cid = world, cid
+
+    def getHandle(self):
+        return self
+
+    def setsockopt(self, level, opt, value):
+        self.world.effect(('setsockopt', self.cid, opt))
+        if getattr(self.world, 'setsockopt_fails', False):
+            raise OSError(92, 'Protocol not available')
+
+    connected = 0
+    disconnecting = 0
+
+
 class Connector(object):
     def __init__(self, world, cid, host, port, factory, timeout, bind):
         self.world = world
@@ -133,7 +150,7 @@ class Connector(object):
         self.bindAddress = bind
         self.state = 'connecting'     # connecting | connected | disconnected
         self.aborted = False
-        self.transport = None
+        self.transport = _PendingSocket(world, cid)     # Twisted: the Client object exists as soon as connectTCP returns
         self.timeout_call = None
 
     # Twisted's IConnector
